@@ -1049,12 +1049,12 @@ func checkC09(c *Ctx) {
 	}
 	c.Set("exercised", stats.tags)
 	c.Set("exhaustive", true)
-	c.Set("rule", "MC_Heap emits every history (depth: <= MaxOps operations over the 39-operation alphabet Small; breadth: 14 prefixes x every operation of Big = "+
+	c.Set("rule", "MC_Heap emits every history (depth: <= MaxOps operations over the 45-operation alphabet Small; breadth: 20 prefixes (6 of them with arrays shrunk by pop / popfirst or an object made by pluck) x every operation of Big = "+
 		"{set x 8 right-hand sides, += -= +=str, ++/-- pre/post, read, 4 mutating calls, 3 for-in loops} x every path of depth <= 2 (thorough: <= 3) over x, y, $, plus {pop, popfirst, push, "+
 		"3 calls and 11 loops (one/two variables) that step or update the parameter / loop variable, pluck} x every path of depth <= 1 and 5 deeper ones (thorough: all); names: 9 prefixes x {set x 3, 7 updates, read, 2 calls, 1 loop} x every path of depth <= 2 over the keys length, pluck, push, k and index 0; "+
 		"given: seeded random histories of up to sim_depth operations over any path of depth <= 3) with x, y, $ after every operation; each is run on the document as root object and as element 0 of a root array; "+
 		"non-trivial = at least two operations; distinct by program text. Read family: seeded random assignment-free expressions, -o document vs input")
-	c.Set("checker_cmd", "tlc MC_Heap (Mode depth / breadth / given); replay through lang.EvalProgram + GetRootJson")
+	c.Set("checker_cmd", "tlc MC_Heap (Mode depth / breadth / names / given); replay through lang.EvalProgram + GetRootJson")
 	c.Set("bounds", map[string]any{"depth_ops": depth, "sim_histories": simN, "sim_depth": simD})
 	c.Set("histories", map[string]any{"replayed": stats.n, "ending_in_expected_error": stats.errs, "runs_needing_open_deviation": stats.dev})
 }
